@@ -73,6 +73,21 @@ class C11(CheckBase):
                         # (the catalogue listing has diagnostics of its own: screen width, column layout)
                         case['cmd'] = dfswork.gen_read_command(rng, s, 'cat')
             else:
+                if cmd == 'extract-files' and rng.chance(0.3):
+                    # files whose length is a whole number of stdio buffers (or one byte less): the last sector written
+                    # is then the one that makes the stream flush, so a device error surfaces inside the final write
+                    from sim.models import dfsdisc as dd
+                    files = []
+                    pos = 2
+                    for i in range(rng.randint(1, 3)):
+                        ln = rng.choice([8192, 8191, 16384, 16383, 24576, 4096, 4095, 32768])
+                        files.append(dd.FileEnt(ord('$'), b'F%d' % i, False, 0x1900, 0x8023, ln, pos))
+                        pos += (ln + 255) // 256 + rng.choice([0, 0, 1])
+                    files.sort(key=lambda f: -f.start)
+                    v = dd.Volume(None, b'BUFSIZED', 3, 0, 800, files, 0, 0)
+                    disc = {'surface': dd.Surface('acorn', 80, 10, [v], 1, 0, rng.below(65536)).to_json(), 'ext': 'ssd'}
+                    s = dfswork.surface_of(disc)
+                    case['disc'] = disc
                 case['cmd'] = [cmd, rng.choice(['out', 'out/', './out'])]
                 if rng.chance(0.3):
                     # a physically short image (emulators produce these): reads fail part-way through the extraction,
